@@ -21,6 +21,7 @@ struct SimSeams {
     bool fail_sustained = false;   // fail every allocation from fail_at on
     uint64_t failed = 0;           // allocations actually failed
     uintptr_t first_fail_site = 0; // return address of the first failed allocation
+    std::vector<uint64_t> realloc_ks; // 1-based indices of the allocations of this run that were realloc calls (container / buffer growth)
     int64_t live_bytes = 0, peak_bytes = 0;
     uint64_t live_blocks = 0;
     int owner = 0;                 // current task id (C19 ownership oracle)
